@@ -23,6 +23,14 @@ type Base struct {
 	Kind string   `json:"kind"` // local | remote | registry | registryfinal
 	Ups  int      `json:"ups"`  // leading ".." of a local base
 	Segs []string `json:"segs"` // path / sub-path name segments
+	Ver  string   `json:"ver,omitempty"` // registryfinal: selected version (default 1.2.3)
+}
+
+func (b Base) version() string {
+	if b.Ver == "" {
+		return regVersion
+	}
+	return b.Ver
 }
 
 const (
@@ -47,9 +55,9 @@ func (b Base) render() string {
 		return registryPkg + "//" + strings.Join(b.Segs, "/")
 	case "registryfinal":
 		if len(b.Segs) == 0 {
-			return registryPkg + "@" + regVersion
+			return registryPkg + "@" + b.version()
 		}
-		return registryPkg + "@" + regVersion + "//" + strings.Join(b.Segs, "/")
+		return registryPkg + "@" + b.version() + "//" + strings.Join(b.Segs, "/")
 	}
 	panic("bad kind " + b.Kind)
 }
@@ -134,7 +142,7 @@ func parseBase(b Base) (parsed, error) {
 }
 
 func expectString(b Base, ups int, names []string) string {
-	nb := Base{Kind: b.Kind, Ups: ups, Segs: names}
+	nb := Base{Kind: b.Kind, Ups: ups, Segs: names, Ver: b.Ver}
 	return nb.render()
 }
 
@@ -300,7 +308,7 @@ func sameParts(got fmt.Stringer, b Base, names []string) error {
 		if g.Package().String() != registryPkg {
 			return fmt.Errorf("package changed to %q", g.Package())
 		}
-		if g.SelectedVersion().String() != regVersion {
+		if g.SelectedVersion().String() != b.version() {
 			return fmt.Errorf("version changed to %q", g.SelectedVersion())
 		}
 		if g.SubPath() != sub {
@@ -516,6 +524,10 @@ func allBases() []Base {
 			out = append(out, Base{Kind: k, Segs: append([]string{}, baseNames[:d]...)})
 		}
 	}
+	// a versioned registry base whose version carries pre-release and build metadata
+	for d := 0; d <= 4; d++ {
+		out = append(out, Base{Kind: "registryfinal", Segs: append([]string{}, baseNames[:d]...), Ver: "1.0.0-rc.1+build.5"})
+	}
 	return out
 }
 
@@ -650,6 +662,9 @@ func genBase(t *rapid.T, label string) Base {
 	}
 	if kind == "local" {
 		b.Ups = rapid.IntRange(0, 4).Draw(t, label+"ups")
+	}
+	if kind == "registryfinal" {
+		b.Ver = rapid.SampledFrom([]string{"", "1.2.3", "1.0.0+build.5", "2.0.0-beta.1", "0.0.1-rc1+meta", "10.20.30"}).Draw(t, label+"ver")
 	}
 	return b
 }
